@@ -2,9 +2,9 @@
    Model: C17/Model.v (mirrors src/utils/file.py:AtomicFile over a file-system
    model; a crash by process death = any prefix [firstn k] of the effect list).
    Proofs: Names.v, Lemmas.v, Witness.v, Final.v. *)
-From Coq Require Import List NArith Bool.
+From Coq Require Import List NArith ZArith Bool.
 Import ListNotations.
-Require Import Base.Wire Base.PyStr C17.Model C17.Names C17.Lemmas C17.Witness C17.Final.
+Require Import Base.Wire Base.PyStr C17.Model C17.Names C17.Lemmas C17.Witness C17.Final C17.Compose.
 Require gen.T17.
 
 (* Full statement (C17_atomic_any_cfg):
@@ -130,18 +130,64 @@ Theorem C17_unwinding_removes_temp :
 Proof. exact C17_unwinding_removes_temp_l. Qed.
 Print Assumptions C17_unwinding_removes_temp.
 
-(* Full statement for an I/O error at a write (C17_atomic_under_write_error): as
-   C17_atomic_under_unwinding, for every caller.  It holds for the callers that
-   let the error propagate (that is C17_atomic_under_unwinding).  The pinned
-   registry.close violates it (finding F44): it wraps each value's fd.write in
-   try/except Exception (regenerated table: SWALLOW_WRITE_ERROR_SITES is not
-   empty), so the flush goes on and COMMITS a file without the failed chunk
-   ([swallowed_ops]); same file system, no crash needed. *)
-Theorem C17_write_error_swallowed_refuted :
-  exists cfg fn tok now chunk (f0 : fs) (ws : list bytes) j,
-  token_ok tok = true /\ digits_ok now = true /\ same_fs cfg = true /\
-  gen.T17.SWALLOW_WRITE_ERROR_SITES <> [] /\
-  let t := apply (effects cfg fn tok now chunk f0 (swallowed_ops ws j)) f0 fn in
-  ~ (t = f0 fn \/ t = Some (concat ws) \/ (f0 fn = None /\ t = Some [])).
-Proof. exact C17_write_error_swallowed_refuted_l. Qed.
-Print Assumptions C17_write_error_swallowed_refuted.
+(* An I/O error (EIO, ENOSPC) raised by a write of the flush, for EVERY caller
+   (users/channels/networks/ignores flush, registry.close, vacuum, world.flush):
+   [write_error_effects] follows the regenerated table of call sites -- a caller
+   that swallowed the error would go on and commit the file without that chunk;
+   since the fix of finding C17.F44 (registry.close) no call site does, the error
+   unwinds the stack, and the target is entirely old or entirely new.  This is
+   the full statement; it replaces the former C17_write_error_swallowed_refuted. *)
+Theorem C17_atomic_under_write_error :
+  forall cfg fn tok now chunk (f0 : fs) (ws : list bytes) k inited j,
+  token_ok tok = true -> digits_ok now = true -> same_fs cfg = true ->
+  let t := apply (write_error_effects cfg fn tok now chunk f0 ws k inited j) f0 fn in
+  t = f0 fn \/ t = Some (concat ws) \/ (f0 fn = None /\ t = Some []).
+Proof. exact C17_atomic_under_write_error_l. Qed.
+Print Assumptions C17_atomic_under_write_error.
+
+(* ---- the property text in one statement --------------------------------------
+   [death] = every way the process can die during a flush (kill after k effects;
+   an exception raised after k effects that unwinds the stack; an I/O error at
+   the j-th write); [surviving] = the target file afterwards. *)
+Theorem C17_atomic_any_death :
+  forall cfg fn tok now chunk (f0 : fs) (ws : list bytes) (d : death),
+  token_ok tok = true -> digits_ok now = true -> same_fs cfg = true ->
+  let t := surviving cfg fn tok now chunk f0 ws d in
+  t = f0 fn \/ t = Some (concat ws) \/ (f0 fn = None /\ t = Some []).
+Proof. exact atomic_any_death. Qed.
+Print Assumptions C17_atomic_any_death.
+
+(* ... and it loads: for every caller of the caller table (users, channels,
+   networks, ignores, userdata, registry, vacuum), with the loader models of C16
+   (ircdb readers), C15 (registry.open_registry) and the FlatfileMapping
+   iterator, the surviving file loads to what the old file loads to, or to what
+   the new file loads to -- whatever the death mode and instant.  [decode] is
+   the text decoding of the file: any function mapping the empty file to the
+   empty text.  The main configuration and a vacuumed FlatfileMapping exist
+   beforehand ([must_exist]). *)
+Theorem C17_loads :
+  forall (decode : bytes -> res str), decode [] = Ok [] ->
+  forall (c : caller) cfg fn tok now chunk (f0 : fs) (ws : list bytes) (d : death),
+  token_ok tok = true -> digits_ok now = true -> same_fs cfg = true ->
+  (must_exist c = true -> f0 fn <> None) ->
+  let t := surviving cfg fn tok now chunk f0 ws d in
+  load decode c t = load decode c (f0 fn) \/ load decode c t = load decode c (Some (concat ws)).
+Proof. exact loads_old_or_new. Qed.
+Print Assumptions C17_loads.
+
+(* the first-ever-save window is harmless: an empty file loads to the same state as no file *)
+Theorem C17_empty_file_loads_as_absent :
+  forall (decode : bytes -> res str), decode [] = Ok [] ->
+  forall c : caller, load decode c (Some []) = load decode c None.
+Proof. exact empty_loads_as_absent. Qed.
+Print Assumptions C17_empty_file_loads_as_absent.
+
+(* composition with C16: when the new users file survives, it loads to exactly the saved accounts *)
+Theorem C17_users_new_version_loads_exactly :
+  forall (decode : bytes -> res str) db new,
+  decode new = Ok (C16.Model.write_users db) -> C16.Model.users_dom db = true ->
+  load decode CUsers (Some new)
+  = Ok (LUsers (C16.Model.UState None (C16.Model.sort_users db)
+                  (C16.Model.max_id (C16.Model.sort_users db) 0%Z), None)).
+Proof. exact users_new_state. Qed.
+Print Assumptions C17_users_new_version_loads_exactly.
